@@ -129,9 +129,9 @@ CatArgs == CatBase \cup Cat1 \cup (IF MaxArity >= 2 THEN Cat2 ELSE {}) \cup (IF 
 Xs == {One, R(-2), <<5, 2>>}
 Calls(op) ==
   CASE op = "AddUnit"     -> { Call(op, [qt |-> qt, u |-> u, dc |-> dc]) : qt \in QTs, u \in Units, dc \in {NONE, "dep"} }
-    [] op = "AddUnitBase" -> { Call(op, [qt |-> qt, u |-> u]) : qt \in QTs, u \in Units }
+    [] op \in {"AddUnitBase", "AddUnitBad"} -> { Call(op, [qt |-> qt, u |-> u]) : qt \in QTs, u \in Units }
     [] op = "AddCategory" -> { Call(op, a) : a \in CatArgs }
-    [] op = "Clear"       -> { Call(op, [x |-> 0]) }
+    [] op \in {"Clear", "CountUnits"} -> { Call(op, [x |-> 0]) }
     [] op \in {"CheckCategoryUnit"} -> { Call(op, [c |-> c, u |-> u]) : c \in Cats, u \in Spellings }
     [] op = "CheckQuantityTypeUnit" -> { Call(op, [qt |-> qt, u |-> u]) : qt \in QTs, u \in Spellings }
     [] op \in {"GetValidUnits", "GetDefaultUnit", "GetDefaultValue"} -> { Call(op, [c |-> c]) : c \in (IF op = "GetValidUnits" THEN CatNames ELSE Cats) }
@@ -149,16 +149,17 @@ Bound == Len(hist) < MaxCalls
 \* one named action per public call (per-action coverage is reported in the evidence)
 AddUnit      == Bound /\ "AddUnit" \in Ops /\ \E c \in Calls("AddUnit") : Register(c)
 AddUnitBase  == Bound /\ "AddUnitBase" \in Ops /\ \E c \in Calls("AddUnitBase") : Register(c)
+AddUnitBad   == Bound /\ "AddUnitBad" \in Ops /\ \E c \in Calls("AddUnitBad") : Register(c)
 AddCategory  == Bound /\ "AddCategory" \in Ops /\ \E c \in Calls("AddCategory") : Register(c)
 Clear        == Bound /\ "Clear" \in Ops /\ \E c \in Calls("Clear") : Register(c)
 CheckCategoryUnit == Bound /\ "CheckCategoryUnit" \in Ops /\ \E c \in Calls("CheckCategoryUnit") : Query(c)
 ObtainQuantity    == Bound /\ "Obtain" \in Ops /\ \E c \in Calls("Obtain") : Query(c)
 BuildScalar       == Bound /\ "Scalar" \in Ops /\ \E c \in Calls("Scalar") : Query(c)
 ObjGetValidUnits  == Bound /\ "ObjGetValidUnits" \in Ops /\ \E c \in Calls("ObjGetValidUnits") : Query(c)
-PlainQueries == {"CheckQuantityTypeUnit", "GetValidUnits", "GetDefaultUnit", "GetDefaultValue", "GetBaseUnit", "GetUnits",
+PlainQueries == {"CheckQuantityTypeUnit", "GetValidUnits", "GetDefaultUnit", "GetDefaultValue", "GetBaseUnit", "GetUnits", "CountUnits",
                  "GetQuantityType", "GetDefaultCategory", "Convert"}
 Lookup       == Bound /\ \E op \in PlainQueries \cap Ops : \E c \in Calls(op) : Query(c)
-Next == AddUnit \/ AddUnitBase \/ AddCategory \/ Clear \/ CheckCategoryUnit \/ ObtainQuantity \/ BuildScalar
+Next == AddUnit \/ AddUnitBase \/ AddUnitBad \/ AddCategory \/ Clear \/ CheckCategoryUnit \/ ObtainQuantity \/ BuildScalar
         \/ ObjGetValidUnits \/ Lookup
 Spec == Init /\ [][Next]_vars
 
